@@ -413,6 +413,13 @@ impl<'a> Parser<'a> {
     /// # }
     /// ```
     pub fn parse_statements(&mut self) -> Result<Vec<Statement>, ParserError> {
+        self.parse_statement_list(false)
+    }
+
+    /// The statements loop. A block body (`BEGIN <statements> END`) ends in front of
+    /// the keyword `END`; a script does not: there `END` after a complete statement
+    /// without a separator is an error like any other token.
+    fn parse_statement_list(&mut self, in_block: bool) -> Result<Vec<Statement>, ParserError> {
         let mut stmts = Vec::new();
         let mut expecting_statement_delimiter = false;
         loop {
@@ -426,7 +433,7 @@ impl<'a> Parser<'a> {
 
                 // end of statement
                 Token::Word(word) => {
-                    if expecting_statement_delimiter && word.keyword == Keyword::END {
+                    if in_block && expecting_statement_delimiter && word.keyword == Keyword::END {
                         break;
                     }
                 }
@@ -12115,7 +12122,7 @@ impl<'a> Parser<'a> {
         let params = self.parse_optional_procedure_parameters()?;
         self.expect_keyword(Keyword::AS)?;
         self.expect_keyword(Keyword::BEGIN)?;
-        let statements = self.parse_statements()?;
+        let statements = self.parse_statement_list(true)?;
         self.expect_keyword(Keyword::END)?;
         Ok(Statement::CreateProcedure {
             name,
